@@ -56,6 +56,26 @@ def r1_dispatch(ctx, rule="C01.R1"):
         ctx.decide(got == [op], rule, "%s:case-is->instruction:%s" % (rule, op), cfn.loc,
                    "CASE IS %s emits Instruction::%s" % (op, op),
                    "CASE IS with Operator::%s is lowered to %s" % (op, got))
+    # CASE lo TO hi: the value is tested `>= lo` and then `<= hi` (both ends belong to the range).
+    # The emitter is found by what it emits: inside the SELECT CASE lowering, a path that evaluates
+    # two different expression arguments, each followed by one comparison and a conditional jump.
+    from .. import emit as _emit
+    found = []
+    for g in sorted(_emit.generator_fns(prog), key=lambda f: f.id):
+        if common.generator_construct_of(prog, g) != "SelectCase":
+            continue
+        for seq in _emit.linear_paths(g.body, _emit.events(prog, g)):
+            cmps = [e.instr for e in seq if e.kind == "push" and e.instr in ORDERINGS]
+            evals = [str(e.args[1]) for e in seq if e.kind in ("gen", "EXPR") and len(e.args) > 1]
+            if len(cmps) == 2 and len(set(evals)) == 2 and sum(1 for e in seq if e.kind == "jump_if_false") == 2:
+                found.append((g, cmps))
+    if len({g.id for g, _c in found}) != 1:
+        raise CheckError("%s: the emitter of `CASE lo TO hi` was not recognised (%d candidates)" % (rule, len({g.id for g, _c in found})))
+    rg, cmps = found[0]
+    ctx.decide(all(c == ["GreaterOrEqual", "LessOrEqual"] for _g, c in found), rule, rule + ":case-range->instructions", rg.loc,
+               "CASE lo TO hi tests >= lo, then <= hi",
+               "CASE lo TO hi is lowered to the comparisons %s instead of GreaterOrEqual (against lo) then LessOrEqual "
+               "(against hi): a value equal to one end of the range is not matched (or values outside are)" % cmps)
     one, htab = T.handler_table()
     instrs = list(ops) + ["NegateA", "NotA"]
     for ins in instrs:
